@@ -178,6 +178,20 @@ theorem hexToNumber_hex4 (up : Bool) (v : Nat) (h : v < 0x10000) (pre post : Lis
   rw [hexToNumber_eq _ _ _ _ _ _ _ _ e]
   exact congrArg some (hexFold_hex4 up v h)
 
+/-- The 32-bit loop used by `UnEscape` is the width-generic loop at `2^32`. -/
+theorem hexLoopW_is_hexLoop (c : List Nat) (n off num : Nat) : hexLoopW 4294967296 c n off num = hexLoop c n off num :=
+  hexLoopW_eq_hexLoop c n off num
+
+/-- `HexStringToNumber<Number_T>(value, offset&, end)` for a `Number_T` of `k` bits: on a run of hex
+digits (any case mixture) that fits (`16^|ds| ≤ 2^k`) inside a buffer, the result is the positional
+value and the cursor ends behind the run. -/
+theorem hex_value_any_width (k : Nat) (c ds : List Nat) (off : Nat)
+    (hbuf : ∀ i, i < ds.length → c[off + i]? = ds[i]?) (hd : ∀ d ∈ ds, (hexVal? d).isSome) (hfit : 16 ^ ds.length ≤ 2 ^ k) :
+    hexLoopW (2 ^ k) c ds.length off 0 = some (hexValue ds 0, off + ds.length) :=
+  hexLoopW_value k c ds off 0 hbuf hd (by simpa using hfit)
+
+example : hexLoopW (2 ^ 64) [48, 120, 70, 102, 49, 71] 4 2 0 = some (0xFF1, 5) ∧ hexValue [70, 102, 49] 0 = 0xFF1 := by decide
+
 /-- The combination the routine computes for a pair is the standard one. -/
 theorem surrogate_pair (hi lo : Nat) (hh : 0xD800 ≤ hi ∧ hi ≤ 0xDBFF) (hl : 0xDC00 ≤ lo ∧ lo ≤ 0xDFFF) :
     (((((hi ^^^ 0xD800) <<< 10) % 4294967296 + (lo &&& 0x3FF)) % 4294967296) + 0x10000) % 4294967296 =
